@@ -106,4 +106,6 @@ ApplyStar(f, x) ==
     CASE f.n = "add2" -> IntV(V(V(x)[1]) + V(V(x)[2]))
       [] f.n = "swap" -> TupV(<<V(x)[2], V(x)[1]>>)
       [] f.n = "fst2" -> V(x)[1]
+      [] f.n = "failAdd2" -> IF V(V(x)[1]) + V(V(x)[2]) = f.c THEN ErrV(f.c)
+                             ELSE IntV(V(V(x)[1]) + V(V(x)[2]))
 =============================================================================
